@@ -10,7 +10,7 @@ treated as sources (their truth / bounds are value properties; see DESIGN.md).
 import ast
 import builtins
 
-from .loader import walk_no_nested
+from .loader import walk_no_nested, walk_all
 from .norm import attr_chain
 from .rules.typeflow import Typer, Cls
 
@@ -107,7 +107,7 @@ class ExcAnalysis:
         child = node
         p = getattr(node, '_parent', None)
         while p is not None and p is not func:
-            if isinstance(p, ast.Try) and any(child is s for s in p.body):
+            if isinstance(p, ast.Try) and (any(child is s for s in p.body) or getattr(child, '_noop_field', None) == 'body'):
                 hs = []
                 for h in p.handlers:
                     if h.body and isinstance(h.body[-1], ast.Raise) and h.body[-1].exc is None:
@@ -141,7 +141,7 @@ class ExcAnalysis:
         calls = []     # (callee keys, node, enclosing)
         env = self.ty.func_env(mod, f, Cls(mod, cls) if cls is not None else None)
         nas = 0
-        for n in walk_no_nested(f):
+        for n in walk_all(f):
             if isinstance(n, ast.Assert):
                 nas += 1
             if isinstance(n, ast.Raise):
